@@ -331,7 +331,7 @@ static void run_shift_with(const Desc& d, Ctx& cx, const MA& Aarg, const MB& Bar
     // the shift is handed over in a variable of the caller that is overwritten right after construction: the solver must have taken a copy
     T sigvar = sigma;
     run_solver<T, Solver, Base>(d, cx, st, stB, [&]() { sigvar = sigma; Solver* s = new Solver(op, bop, nev, ncv, sigvar); sigvar = sigma + T(977); return s; }, [&]() { return probe_op(op, n); },
-                                [&]() { ina.set_shift((T) d.f("resig", 0.21L)); ina.set_shift(sigma); });
+                                [&]() { try { ina.set_shift((T) d.f("resig", 0.21L)); } catch (const std::exception&) {} ina.set_shift(sigma); });
 }
 
 template <typename T, GEigsMode Mode, int UploA, int UploB>
